@@ -192,7 +192,7 @@ def harnesses(t):
     return g.operands == (["valid_addr"] if tagged else want)
 ''', timeout=T, prelude=PRE, key="chain_history", note="the observers prepared for an earlier operation (with its own range) do not influence this operation's tagging", probe=["chain_history(True, 0, 64, False, 0, 0, 1, 16)", "chain_history(True, 0, 64, True, 100, 200, 2, 16)", "chain_history(False, 0, 0, True, 0, 64, 1, 16)"]))
     # config loading: the range object is rebuilt or reset on every load
-    hs.append(ch.H("c18/load", '''def load(present: bool, lo: int, hi: int, stale: bool) -> bool:
+    hs.append(ch.H("c18/load", '''def load(present: bool, lo: int, hi: int, stale: bool, max_first: bool) -> bool:
     """
     pre: lo >= 0 and hi >= 0
     post: _
@@ -200,6 +200,9 @@ def harnesses(t):
     cfg = JASMConfig.get_instance()
     cfg._set_info("valid_addr_range", ValidAddrRange(min_addr=HexStr(False, 1), max_addr=HexStr(False, 2)) if stale else None)
     d = {"valid_addr_range": {"min": HexStr(False, lo), "max": HexStr(True, hi)}} if present else {}
+    if present and max_first:
+        # the two keys of the mapping in the other order (YAML mappings keep the order they were written in)
+        d = {"valid_addr_range": {"max": HexStr(True, hi), "min": HexStr(False, lo)}}
     cfg._load_valid_addr_range(d)
     r = cfg.get_info("valid_addr_range")
     if not present:
@@ -259,6 +262,18 @@ def end_to_end_routes(run):
         ws = want_stream if "config" in doc else want_stream.replace("valid_addr", "2000", 1).replace("valid_addr", "0x2fff", 1)
         if got != want or stream != ws:
             run.failure(f"end_to_end/{nm.replace(' ', '_')}", f"rule variant '{nm}': matched {got} (expected {want}); stream {stream!r} (expected {ws!r})", {"kind": "c18_e2e", "variant": nm})
+    # the mapping written max-first; one matcher object asked twice (also for the stream)
+    rdoc = {"config": {"valid_addr_range": {"max": "2fff", "min": "0x2000"}}, "pattern": [{"$or": [{"call": ["valid_addr"]}, {"jmp": ["valid_addr"]}]}]}
+    got = jasmapi.run_pipeline(rdoc, L, None, all_matches=True, only_addr=True)
+    stream = jasmapi.run_pipeline(rdoc, L, None, ret="stream")
+    run.count("traces_validated_against_impl")
+    if got != ["1000", "100c"] or stream != want_stream:
+        run.failure("end_to_end/max_written_first", f"valid_addr_range written as {{max: 2fff, min: 0x2000}}: matched {got} (expected ['1000', '100c']); stream {stream!r}", {"kind": "c18_e2e", "variant": "max_written_first"})
+    twice = jasmapi.constructed_first_results([cases[0][1]], L)
+    twice_s = jasmapi.constructed_first_results([cases[0][1]], L, ret="stream")
+    run.count("traces_validated_against_impl")
+    if twice != [["1000", "100c"], ["1000", "100c"]] or twice_s != [want_stream, want_stream]:
+        run.failure("end_to_end/asked_twice", f"one matcher object with a range, run twice: {twice} (expected ['1000', '100c'] both times); streams equal the expected one: {[x == want_stream for x in twice_s]}", {"kind": "c18_e2e", "variant": "asked_twice"})
     # bounds as numbers: range 0x0..1fff contains target 0 and 1fff (both bounds), not 2000
     doc = {"config": {"valid_addr_range": {"min": "0x0", "max": "1fff"}}, "pattern": [{"$or": [{"call": ["valid_addr"]}, {"jmp": ["valid_addr"]}]}]}
     stream = jasmapi.run_pipeline(doc, L, None, ret="stream")
